@@ -138,6 +138,9 @@ func (c *VCtx) load(fr *Frame, st *State, p Val, pos token.Pos) Val {
 		switch l.Kind {
 		case "field", "cell":
 			c.checkAccess(fr, st, l, false, pos)
+			if l.Kind == "cell" && fr != nil {
+				c.pubCellCheck(fr, st, l, false, pos)
+			}
 			if l.Kind == "cell" && c.lmCheckCell(fr, st, l, false, pos) {
 				// racy read of a shared variable: the value is whatever some other thread last wrote
 				rv := c.freshVal("racy", l.GT)
@@ -200,6 +203,9 @@ func (c *VCtx) store(fr *Frame, st *State, p Val, v Val, pos token.Pos) {
 			c.checkAccess(fr, st, l, true, pos)
 			if l.Kind == "cell" {
 				c.lmCheckCell(fr, st, l, true, pos)
+				if fr != nil {
+					c.pubCellCheck(fr, st, l, true, pos)
+				}
 			}
 			hs := ArrSort(SRef, l.Sort)
 			h := c.heap(st, l.Heap, hs)
@@ -313,7 +319,7 @@ func (c *VCtx) freshRef(st *State, prefix string) *Term {
 	if prefix == "new" {
 		c.allFresh = append(c.allFresh, r)
 	}
-	if prefix == "new" || prefix == "chan" {
+	if prefix == "new" || prefix == "chan" || prefix == "cell" {
 		c.freshKeys = append(c.freshKeys, r)
 	}
 	return r
